@@ -7,6 +7,7 @@ The seed lives in /verif/seeded/<seed-id>/ {patch.diff, demo.rs, meta.json}.
  3. applies the patch to /repo, runs ./check <property> quick for each property, undoes it
  4. writes what was run and observed into meta.json; removes the worktree and its build output"""
 import json, os, shutil, subprocess, sys, time
+os.environ['VERIF_EVIDENCE_DIR'] = '/verif/.cache/seed-evidence'   # never overwrite the committed evidence from a patched tree
 sid, demo_path, props = sys.argv[1], sys.argv[2], sys.argv[3:]
 dst = f'/verif/seeded/{sid}'
 meta = json.load(open(f'{dst}/meta.json'))
@@ -18,12 +19,15 @@ sh(f'git -C /repo worktree remove --force {wt}'); shutil.rmtree(wt, ignore_error
 rc, o = sh(f'git -C /repo worktree add -q {wt} HEAD'); assert rc == 0, o
 demo_cmd = meta['demo_cmd']
 ran = {'demo_cmd': demo_cmd, 'demo_path': demo_path}
+scratch_crate = os.path.isdir(f'{dst}/pp')   # demo is a scratch crate SEED/pp (outside the workspace) instead of a test file
 def install():
+    if scratch_crate:
+        shutil.copytree(f'{dst}/pp', f'{wt}/SEED/pp', dirs_exist_ok=True); return
     os.makedirs(os.path.dirname(os.path.join(wt, demo_path)), exist_ok=True); shutil.copy(f'{dst}/demo.rs', os.path.join(wt, demo_path))
 install()
 rc0, o0 = sh(demo_cmd, wt); ran['demo_without_patch'] = {'rc': rc0, 'tail': o0[-300:]}
 rc, o = sh(f'git apply {dst}/patch.diff', wt); ran['apply_rc'] = rc
-os.remove(os.path.join(wt, demo_path))
+if not scratch_crate: os.remove(os.path.join(wt, demo_path))
 rc2, o2 = sh('cargo test --workspace --no-fail-fast --offline 2>&1 | grep -E "^test result|FAILED|^error"', wt)
 passed = sum(int(l.split('ok. ')[1].split(' passed')[0]) for l in o2.splitlines() if l.startswith('test result: ok.'))
 ran['suite_with_patch'] = {'passed': passed, 'failed_lines': [l for l in o2.splitlines() if 'FAILED' in l or l.startswith('error')][:5]}
